@@ -37,5 +37,9 @@ seeded = "\n".join(srows)
 s = open("DESIGN.md").read()
 s = re.sub(r"(<!-- STATUS-TABLE-BEGIN -->).*?(<!-- STATUS-TABLE-END -->)", lambda m: m.group(1) + "\n" + status + "\n" + m.group(2), s, flags=re.S)
 s = re.sub(r"(<!-- SEEDED-TABLE-BEGIN -->).*?(<!-- SEEDED-TABLE-END -->)", lambda m: m.group(1) + "\n" + seeded + "\n" + m.group(2), s, flags=re.S)
+import subprocess
+st = subprocess.run(["python3", os.path.join(ROOT, "tools", "seeded_stats.py")], stdout=subprocess.PIPE).stdout.decode()
+st = "```\n" + "\n".join(l for l in st.splitlines()) + "\n```"
+s = re.sub(r"(<!-- SEEDED-STATS-BEGIN -->).*?(<!-- SEEDED-STATS-END -->)", lambda m: m.group(1) + "\n" + st + "\n" + m.group(2), s, flags=re.S)
 open("DESIGN.md", "w").write(s)
 print("status rows:", len(rows) - 2, "seeded rows:", len(srows) - 2)
